@@ -186,6 +186,10 @@ def strat_abort(tier):
         "azimuth_exact": st.booleans(),
         "kgap": gen.logu(1.0, 500.0),
         "entry": st.sampled_from(["field", "scat_matrix", "holo"]),
+        # scattering directions given directly as angles (calc_scat_matrix accepts such detectors), including polar
+        # angles outside [0, pi] and azimuths outside [0, 2 pi)
+        "angles": st.one_of(st.none(), st.none(), st.lists(st.tuples(st.one_of(st.floats(0, math.pi), st.floats(-1.0, 7.0), st.sampled_from([0.0, math.pi, -0.0, math.pi + 1e-15, -1e-17])),
+                                                                         st.floats(-7.0, 14.0)), min_size=1, max_size=3).map(lambda l: [list(t) for t in l])),
     })
 
 
@@ -227,6 +231,13 @@ def run_abort(case):
             s, rmax = _axisym(c2, rot, (0, 0, rmax + case["kgap"] / k))
     det = hp.detector_points(x=P[:, 0], y=P[:, 1], z=0.0)
     kw = gen.optics_kwargs(o)
+    if case.get("angles") is not None:
+        case = dict(case, entry="scat_matrix")
+        A = np.array(case["angles"])
+        det = hp.detector_points(theta=A[:, 0], phi=A[:, 1])
+        labels.append("directions_as_angles")
+        if np.any(A[:, 0] < 0) or np.any(A[:, 0] > math.pi):
+            labels.append("polar_angle_out_of_range")
     try:
         if case["entry"] == "field":
             v = calc_field(det, s, theory=Tmatrix(), **kw).values
